@@ -205,6 +205,11 @@ def stream_docs(ctx, acc, fmt, n, gen, code, args_of, opts_of, nontriv):
             continue
         rec = {"input": plain(d), "document": text, "opts": plain(opts_of(d))}
         acc.add(fmt, rec, expected, obs, model, dom)
+        if dom and fmt == "mdvd":
+            dd = acc.res["distribution"]
+            dd["mdvd_cues_inside_one_frame"] = dd.get("mdvd_cues_inside_one_frame", 0) + sum(1 for c in d[2] if c[1] == c[3])
+            dd["mdvd_cues_inside_one_frame_with_numeric_text"] = dd.get("mdvd_cues_inside_one_frame_with_numeric_text", 0) \
+                + mdvd_same_frame_numeric(d)
         if dom:
             acc.res["nontrivial"] |= {(fmt,) + tuple(k) for k in nontriv(d)}
             if ctx.rng.random() < 0.3:
@@ -234,6 +239,10 @@ def differs(res, rec):
 def same(obs, model):
     return (isinstance(obs, Ok) and isinstance(model, Ok) and obs.v == model.v) or \
            (isinstance(obs, Err) and isinstance(model, Err) and obs.code == model.code)
+
+
+def mdvd_same_frame_numeric(d):
+    return sum(1 for c in d[2] if c[1] == c[3] and any(l.replace(".", "").isdigit() for l in c[4]))
 
 
 def mdvd_nontriv(d):
